@@ -22,6 +22,8 @@ impl SchemaMut {
 		let mut state = WriteCanonicalFormState {
 			w: ErrorConversionWriter(Rabin::default()),
 			named_type_written: vec![false; self.nodes.len()],
+			unnamed_type_in_progress: vec![0; self.nodes.len()],
+			n_named_types_written: 0,
 		};
 		state.write_canonical_form(self, SchemaKey::from_idx(0))?;
 		Ok(state.w.0.finish())
@@ -35,6 +37,8 @@ impl SchemaMut {
 		let mut state = WriteCanonicalFormState {
 			w: ErrorConversionWriter(String::new()),
 			named_type_written: vec![false; self.nodes.len()],
+			unnamed_type_in_progress: vec![0; self.nodes.len()],
+			n_named_types_written: 0,
 		};
 		state.write_canonical_form(self, SchemaKey::from_idx(0))?;
 		Ok(state.w.0)
@@ -44,6 +48,13 @@ impl SchemaMut {
 struct WriteCanonicalFormState<W> {
 	w: ErrorConversionWriter<W>,
 	named_type_written: Vec<bool>,
+	/// For unnamed nodes (array, map, union) that we are currently writing: the number of
+	/// named types that had been written when we entered them, plus one (zero otherwise).
+	/// Meeting one of them again without having written any named type in between means that
+	/// the schema contains a cycle that does not go through a named type, which can't be
+	/// written (and would otherwise recurse forever)
+	unnamed_type_in_progress: Vec<usize>,
+	n_named_types_written: usize,
 }
 
 impl<W: Write> WriteCanonicalFormState<W> {
@@ -66,6 +77,7 @@ impl<W: Write> WriteCanonicalFormState<W> {
 				Ok(match &mut state.named_type_written[key.idx] {
 					b @ false => {
 						*b = true;
+						state.n_named_types_written += 1;
 						true
 					}
 					true => {
@@ -76,6 +88,23 @@ impl<W: Write> WriteCanonicalFormState<W> {
 					}
 				})
 			};
+
+		let is_unnamed_container = matches!(
+			node.type_,
+			RegularType::Union(_) | RegularType::Array(_) | RegularType::Map(_)
+		);
+		let previous_in_progress_marker = if is_unnamed_container {
+			let marker = self.n_named_types_written + 1;
+			let previous = std::mem::replace(&mut self.unnamed_type_in_progress[key.idx], marker);
+			if previous == marker {
+				return Err(SchemaError::new(
+					"Schema contains a cycle that can't be avoided using named references",
+				));
+			}
+			previous
+		} else {
+			0
+		};
 
 		// In PCF, logical types are completely ignored
 		// https://issues.apache.org/jira/browse/AVRO-1721
@@ -174,6 +203,9 @@ impl<W: Write> WriteCanonicalFormState<W> {
 					self.w.write_str("]}")?;
 				}
 			}
+		}
+		if is_unnamed_container {
+			self.unnamed_type_in_progress[key.idx] = previous_in_progress_marker;
 		}
 		Ok(())
 	}
